@@ -50,6 +50,9 @@ pub enum KeyType {
     Rsa2048,
     Rsa3072,
     EcP256,
+    /// Ed25519 whose raw public key starts with these bytes (the key is the whole BIT STRING content, so its
+    /// first byte is the low-order byte of the number CredSSP increments)
+    Ed25519Prefix(&'static [u8]),
 }
 
 pub struct Identity {
@@ -70,6 +73,12 @@ fn make_identity(kt: KeyType, cn: &str, expired: bool) -> Identity {
             let g = EcGroup::from_curve_name(Nid::X9_62_PRIME256V1).unwrap();
             PKey::from_ec_key(EcKey::generate(&g).unwrap()).unwrap()
         }
+        KeyType::Ed25519Prefix(pre) => loop {
+            let k = PKey::generate_ed25519().unwrap();
+            if k.raw_public_key().unwrap().starts_with(pre) {
+                break k;
+            }
+        },
     };
     let mut name = X509NameBuilder::new().unwrap();
     name.append_entry_by_text("CN", cn).unwrap();
@@ -89,7 +98,11 @@ fn make_identity(kt: KeyType, cn: &str, expired: bool) -> Identity {
         b.set_not_before(&Asn1Time::days_from_now(0).unwrap()).unwrap();
         b.set_not_after(&Asn1Time::days_from_now(365).unwrap()).unwrap();
     }
-    b.sign(&key, MessageDigest::sha256()).unwrap();
+    if matches!(kt, KeyType::Ed25519Prefix(_)) {
+        b.sign(&key, MessageDigest::null()).unwrap();
+    } else {
+        b.sign(&key, MessageDigest::sha256()).unwrap();
+    }
     let cert = b.build();
     let cert_der = cert.to_der().unwrap();
     let subject_public_key = spk_from_cert(&cert_der).expect("own certificate parses");
@@ -122,7 +135,21 @@ pub fn spk_from_cert(cert_der: &[u8]) -> Result<Vec<u8>, String> {
 static IDS: OnceLock<Vec<Arc<Identity>>> = OnceLock::new();
 
 /// identities are generated once per process: [rsa2048, rsa2048 (second, for relay cases), ec p256, rsa3072, expired rsa2048]
+static SPECIAL: OnceLock<Vec<Arc<Identity>>> = OnceLock::new();
+/// identities 5, 6, 7: Ed25519 keys whose low-order bytes are ff / fe / ff ff (carry cases of the +1)
+pub const SPECIAL_IDENTITIES: [usize; 3] = [5, 6, 7];
+
 pub fn identity(i: usize) -> Arc<Identity> {
+    if i >= 5 && i < 8 {
+        let v = SPECIAL.get_or_init(|| {
+            vec![
+                Arc::new(make_identity(KeyType::Ed25519Prefix(&[0xff]), "rdpverif-ed-ff", false)),
+                Arc::new(make_identity(KeyType::Ed25519Prefix(&[0xfe]), "rdpverif-ed-fe", false)),
+                Arc::new(make_identity(KeyType::Ed25519Prefix(&[0xff, 0xff]), "rdpverif-ed-ffff", false)),
+            ]
+        });
+        return v[i - 5].clone();
+    }
     let v = IDS.get_or_init(|| {
         vec![
             Arc::new(make_identity(KeyType::Rsa2048, "rdpverif-a", false)),
